@@ -45,7 +45,7 @@ Print Assumptions C09_nothing_else_deleted.
 Theorem C09_persisted_survive_restart :
   forall (c : gcfg) (s : st) (p : path) (ts : Z),
   In (p, ts) (pending s) ->
-  let s1 := run c [Persist; Restart; Load] s in
+  let s1 := run c [PersistSnap; PersistPut; Restart; Load] s in
   exists ts', In (p, ts') (pending s1) /\ In (p, ts') (pending s).
 Proof. exact persisted_survive_restart. Qed.
 Print Assumptions C09_persisted_survive_restart.
@@ -56,7 +56,7 @@ Theorem C09_persisted_then_deleted :
   forall (c : gcfg) (s : st) (p : path) (ts d : Z),
   In (p, ts) (pending s) -> (forall q t, In (q, t) (pending s) -> t <= now s) ->
   g_grace c <= d -> ~ In p (pins s) ->
-  let s1 := run c [Persist; Restart; Load; Tick d; GcFilter] s in
+  let s1 := run c [PersistSnap; PersistPut; Restart; Load; Tick d; GcFilter] s in
   In p (deletes c s1 (GcDelete p)) /\ ~ In p (objs (step c s1 (GcDelete p))).
 Proof. exact persisted_then_deleted. Qed.
 Print Assumptions C09_persisted_then_deleted.
